@@ -289,6 +289,7 @@ Definition check_tdh_trigger_interval (c : vcfg) (s : cdp_state) : list vmsg :=
   end.
 
 Definition check_tdh_after_done (s : cdp_state) (w : list N) : list vmsg :=
+  (if Gen.Facts.tdh_after_done_checks_continuation && negb (tdh_continuation w =? 0) then [werr s 42 w] else []) ++
   match sw_prev_tdh (cs_words s) with
   | Some p => if tdh_trigger_bc w <? tdh_trigger_bc p then [werr s 440 w] else []
   | None => []
